@@ -35,6 +35,10 @@ def goenv():
     return e
 
 
+import threading
+_BUILD_LOCK = threading.RLock()
+
+
 class Ctx:
     def __init__(self, prop, tier, seed):
         self.prop = prop
@@ -71,6 +75,11 @@ class Ctx:
 
     # ------------------------------------------------------------------ worker
     def worker(self, race=False, tags="verif"):
+        # (checks may run several components in threads: one build at a time)
+        with _BUILD_LOCK:
+            return self._worker_locked(race, tags)
+
+    def _worker_locked(self, race, tags):
         key = (race, tags)
         if key in self._workers:
             return self._workers[key]
